@@ -15,7 +15,8 @@ TopLow  == {<<-30, 22>>}
 BotHigh == {<<-22, 30>>}
 Wide    == {<<-70, 30>>}                               \* one band straddling both bands of a C+L amplifier
 Tri     == {<<-70, -45>>, <<-30, -5>>, <<5, 30>>}      \* three bands
-Menu    == {C, L, CL, NarrowC, TopLow, BotHigh, Wide, Tri}
+CL2     == {<<-70, -50>>, <<-25, 30>>}                 \* same outer range as CL, other inner edges
+Menu    == {C, L, CL, NarrowC, TopLow, BotHigh, Wide, Tri, CL2}
 \* an OMS carries two amplifiers IN ORDER (booster, preamp): the common band must not depend on the order
 AmpPairs == Menu \X Menu
 
